@@ -131,6 +131,8 @@ class SaveSim:
                     faults[-1]['persistent'] = True    # the condition does not clear by itself: a retry inside the call must not turn it into success
             end = 'crash_after_ack' if rng.random() < 0.4 else 'exit'
             steps.append({'op': 'save', 'src': src, 'via': via, 'path': path, 'faults': faults, 'end': end})
+            if not faults and rng.random() < 0.3:
+                steps[-1]['again'] = f'again{k}.nc'      # the same in-memory object saved a second time (nothing the first save did to it may matter)
             if faults and faults[0]['kind'] not in ('crash', 'crash_after') and rng.random() < 0.5:
                 # bounded liveness inside the *same* process: once the fault is over, one more attempt must work
                 # (nothing - xarray's file cache, module state - may stay poisoned)
@@ -240,6 +242,23 @@ class SaveSim:
             if step['src'] == 'prev' and src_path and prev_units is not None and units is not None and units != prev_units:
                 out.violate('C17', 'units-fixed-point', None, f'units changed across a save cycle: {prev_units!r} -> {units!r}')
             prev_path, prev_units = path, units
+            if step.get('again'):
+                rdone = [p for kk, p in res['events'] if kk == 'retry_done']
+                rraised = [p for kk, p in res['events'] if kk == 'retry_raised']
+                if rraised:
+                    out.violate('C17', 'second-save-raised', rraised[0]['frame'],
+                                f"saving the same in-memory dataset a second time raised {rraised[0]['exc']}: {res['obs'].get('retry_msg')}")
+                elif rdone and rdone[0]['acked']:
+                    path2 = os.path.join(scratch, step['again'])
+                    obs2 = lifetimes.run_lifetime(common.observe_file, path2)
+                    if obs2['status'] != 'exit':
+                        out.harness_error = f'observer failed: {obs2["error"]}'
+                        return
+                    out.stats['probe.second_save_of_same_object_judged'] += 1
+                    units2 = self.judge(out, world, step, obs2['obs']['file'], pre, k)
+                    out.event('judged_second_save', step=k, units=units2)
+                    if units is not None and units2 is not None and units2 != units:
+                        out.violate('C17', 'units-fixed-point', None, f'second save of the same object wrote other units: {units!r} -> {units2!r}')
         meta = plan.get('units_meta') or {}
         out.signature = (world.conv, plan['world']['materialise'], tz, meta.get('offset'), meta.get('style'), tuple(sig_steps))
         out.nontrivial = {'C17': acked_any}
@@ -373,6 +392,10 @@ def _save_lifetime(ctx, world_spec, step, scratch, tz, src_path):
         ctx.observe('raised_msg', info['msg'])
     fired, unfired, counts = ctl.end_op()
     ctx.emit('op_done', acked=acked, unfired=[(f['seam'], f['kind']) for f in unfired], crossings=dict(sorted(counts.items())))
+    if acked and step.get('again'):
+        step = dict(step, inproc_retry=step['again'])
+        acked = False
+        ctx.emit('second_save_of_same_object')
     if not acked and step.get('inproc_retry'):
         path2 = os.path.join(scratch, step['inproc_retry'])
         ctl.begin_op('save_retry', [])
